@@ -1,0 +1,28 @@
+//go:build verif
+
+package icsim
+
+import (
+	"github.com/icon-project/goloop/module"
+	"github.com/icon-project/goloop/service/state"
+)
+
+// VerifWorldSnapshot returns the last finalized world snapshot of a simulator
+// (read-only accessor for the /verif harness: lets a monitor enumerate every
+// account of the world state).
+func VerifWorldSnapshot(sim Simulator) state.WorldSnapshot {
+	if s, ok := sim.(*simulatorImpl); ok {
+		return s.wss
+	}
+	return nil
+}
+
+// VerifEnvActors returns the addresses an Env was initialized with.
+func VerifEnvActors(env *Env) (preps, users, bonders []module.Address) {
+	return env.preps, env.users, env.bonders
+}
+
+// VerifTreasury is the treasury address used by the simulator's world context.
+func VerifTreasury() module.Address {
+	return treasury
+}
